@@ -25,7 +25,7 @@ def set_extra(lits):
                 for pool in (QK, QKEYS):
                     if k not in pool: pool.append(k)
     for st in EXTRA['strs']:
-        for pool in (ODD, CALGS, VALS, GTYPES, QK, QKEYS):
+        for pool in (ODD, CALGS, VALS, GTYPES, QK, QKEYS, QVALS):
             if st not in pool: pool.append(st)
     for n in EXTRA['nums']:
         for st in ('a' * n, 'a' * (n + 1), 'é' * n, 'pkg:'[:n]):
@@ -75,6 +75,12 @@ def gen_utf8(maxlen, kinds=('g',)):
                     yield f'P {k} {hx("pkg:t/n#" + e)}'
 
 # ------------------------------------------------------------------ G-slot: every ASCII character in every syntactic slot, exhaustive
+def gen_slot2(kinds=('g', 't')):
+    for c in range(128):
+        ch = chr(c)
+        if ch in '&#': continue
+        for s in ['pkg:t/n?b=1&' + ch + 'a=2', 'pkg:t/n?a=1&a' + ch + '=2', 'pkg:t/n?b=1&a' + ch + '=2&c=3']:
+            for k in kinds: yield f'P {k} {hx(s.replace("pkg:t/", "pkg:npm/") if k == "t" else s)}'
 def gen_slot(kinds=('g',)):
     for c in range(128):
         ch = chr(c)
@@ -295,7 +301,7 @@ def gen_fault(rng, n, kinds=('g', 't')):
             if fk == 'noeq':
                 bad = rng.choice(['abc', '', 'k', '%3D', 'a%3Db'])
             elif fk == 'badkey':
-                bad = rng.choice(['=v', 'a b=v', 'a%20b=v', '%61=v', 'k%41=v', 'é=v', 'a!=v', 'a+b=v', 'a/b=v', 'a:b=v', '%=v', 'a@=v', ' a=v', 'a%80=v'])
+                bad = rng.choice(['=v', 'a b=v', 'a%20b=v', '%61=v', 'k%41=v', 'é=v', 'a!=v', 'a+b=v', 'a/b=v', 'a:b=v', '%=v', 'a@=v', ' a=v', 'a%80=v', '%80=v', 'arch%FF=v', '%C3a=v', '%C0%AF=v', 'a =v', 'A!=v', 'Key name=v', 'a[0]=v', 'k^=v'])
             elif fk == 'dupkey':
                 k = rkey(rng)
                 while k.lower() in t['quals'] or k.lower() == 'checksum': k = rkey(rng)
@@ -325,7 +331,7 @@ def gen_fault(rng, n, kinds=('g', 't')):
             if where == 'ns': s = spelling_of(rng, t, dict(ns_raw=rng.choice(['', 'x/']) + piece))
             elif where == 'name': s = spelling_of(rng, t, dict(name_raw=piece))
             elif where == 'ver': s = spelling_of(rng, t, dict(ver_raw=piece))
-            elif where == 'qval': s = spelling_of(rng, t, dict(q_raw='k=' + piece))
+            elif where == 'qval': s = spelling_of(rng, t, dict(q_raw=rng.choice(['k', 'k', 'repository_url', 'Download_URL', 'vcs_url', 'file_name', 'checksum']) + '=' + piece))
             else: s = spelling_of(rng, t, dict(sub_raw=rng.choice(['', 'x/', './']) + piece))
             err = wrap('InvalidEscape')
         elif fk == 'hidden':
@@ -438,6 +444,22 @@ def gen_names(rng, tier):
         yield from cases('A' + chr(cp))
         yield from cases(chr(cp) + '_-')
 
+# ------------------------------------------------------------------ G-typed-punct: every type's rule leaves everything but the name alone
+def gen_typed_punct():
+    """for each of the seven types: namespace / name / version made of each ASCII punctuation character next to a lower-case and an upper-case letter,
+    scoped and unscoped, with and without a well-known qualifier - through the typed and the type-agnostic parser and the typed builder"""
+    punct = [chr(c) for c in range(33, 127) if not chr(c).isalnum()]
+    vals = ['1.0.4294967296', '2023.10.15.20231015123456', '1.99999999999-beta+sha.abc', '18446744073709551616', '1.00.0.0+build', '0.0.0.0.0', '4294967295.4294967296'] + [p + 'a' for p in punct] + [p + 'B' for p in punct] + ['a' + p + 'B' for p in punct] + ['!', 'a/!/b', '@Scope', '@s', 'MyLib', 'parseUri', 'V1.0-Beta', 'wow!such!name']
+    for i, ty in enumerate(SEVEN):
+        for v in vals:
+            e = ''.join('%%%02X' % ord(ch) if ch in '/@?#% ' else ch for ch in v)
+            for s in ['pkg:' + ty + '/g/' + e, 'pkg:' + ty + '/' + e + '/Nm', 'pkg:' + ty + '/%40Sc/' + e + '@' + e, 'pkg:' + ty + '/g/' + e + '?repository_url=https://r.x/A']:
+                yield f'P g {hx(s)}'; yield f'P t {hx(s)}'
+            yield f'B t {i} {hx(v)} S:{hx("g")}'
+            yield f'B t {i} {hx("Nm")} S:{hx(v)},V:{hx(v)}'
+        for nm in ['Name', 'A_.b']:
+            for ops in [f'Q:{hx("repository_url")}:-', 'R:-', f'Q:{hx("Repository_URL")}:-', f'Q:{hx("repository_url")}:{hx("https://r.x")}', f'Q:{hx("type")}:{hx("jar")}', f'S:{hx("@Sc")}']:
+                yield f'B t {i} {hx(nm)} S:{hx("g")},{ops}'
 # ------------------------------------------------------------------ G-lengths: boundary lengths in every position
 LENGTHS = [23, 24, 32, 64, 65, 100, 128, 255, 256, 2048]
 def gen_lengths(kinds=('g', 't', 's')):
@@ -484,9 +506,9 @@ def gen_types(kinds=('g', 's', 'b', 'o')):
             yield f'B {k} {hx(ty)} {hx("")} -'
 
 # ------------------------------------------------------------------ G-build
-VALS = ['', 'x', '%40a', '@a', 'my%20org', 'my org', 'a%252Fb', 'A/b', '/', 'a//b/', 'docs/%2541', 'a%252Fb', 'docs../img/x.', 'lib./i', 'a/.../b', '...', '..../x', 'a///b', 'a/////b//c', '1.0/', 'x ', '\u3000x\u3000', 'vv1', 'Vv1', '%41', '..', 'a/../b', 'é', 'a@b?c#d', ' ', 'a&b=c+d', '"<>`{}', 'a:b']
+VALS = ['', 'x', '/ a/b', 'a/b /', 'x\u00a0', '\u2003x', 'x\x0b', 'a/!/b', '!a', '%40a', '@a', 'my%20org', 'my org', 'a%252Fb', 'A/b', '/', 'a//b/', 'docs/%2541', 'a%252Fb', 'docs../img/x.', 'lib./i', 'a/.../b', '...', '..../x', 'a///b', 'a/////b//c', '1.0/', 'x ', '\u3000x\u3000', 'vv1', 'Vv1', '%41', '..', 'a/../b', 'é', 'a@b?c#d', ' ', 'a&b=c+d', '"<>`{}', 'a:b']
 QKEYS = ['chec\u212asum', 'vc\u017f_url', 'cla\u00dfifier', '3rd', '0', 'a/b', 'a[0]', 'k^', 'a', 'A', 'b', 'a.b', 'a_b', 'ab', '!', '', 'checksum', 'Checksum', 'repository_url', 'é', 'type', 'Z', 'File_Name', 'filename']
-QVALS = ['a:00,sha1:zz', 'md5:00,sha1:0', 'a:ff', 'sha1:00,sha1:11', 'md5:aa,md5:aa', 'md5:00,sha1:11,sha1:22', '\u0130d:00ff', 'sha1:00,x\u0130:AB', 'shake256:' + 'ab' * 65, 'sha1:00,k12:' + 'CD' * 128, '', 'x', 'a&b=c', 'sha1:00', 'SHA1:ZZ', 'B:00,a:FF', 'sha1:0', 'a:,b:', 'v w', 'sha1:00,', ',sha1:00', 'sha1:', 'jar', 'sha3-256:aa,sha3:bb']
+QVALS = [' ', '\t', 'sha-256:aa,sha1:cc', 'md5:01,MD-6:02', 'sha224:00', 'a:00,sha1:zz', 'md5:00,sha1:0', 'a:ff', 'sha1:00,sha1:11', 'md5:aa,md5:aa', 'md5:00,sha1:11,sha1:22', '\u0130d:00ff', 'sha1:00,x\u0130:AB', 'shake256:' + 'ab' * 65, 'sha1:00,k12:' + 'CD' * 128, '', 'x', 'a&b=c', 'sha1:00', 'SHA1:ZZ', 'B:00,a:FF', 'sha1:0', 'a:,b:', 'v w', 'sha1:00,', ',sha1:00', 'sha1:', 'jar', 'sha3-256:aa,sha3:bb']
 CSOPS = [f'i.{hx("shake256")}.' + 'ab' * 65, f'w.{hx("k12")}.' + hx('AB' * 100), f'w.{hx("x")}.' + hx('zz' * 70), '-', f'i.{hx("sha1")}.00ff', f'i.{hx("SHA1")}.-', f'i.{hx("md5")}.0a+i.{hx("MD5")}.0b', f'w.{hx("sha1")}.{hx("zz")}',
          f'w.{hx("sha1")}.{hx("ABC")}', f'i.{hx("ǅ")}.01+i.{hx("ǆ")}.02', f'i.{hx("b")}.00+i.{hx("a")}.ff', f'i.{hx("a")}.00+r.{hx("a")}',
          f'w.{hx("a")}.{hx("AB")}+i.{hx("A")}.cd', f'i.{hx("a,b")}.00']
@@ -536,7 +558,7 @@ def gen_build(rng, nrand, exhaustive_len=1, kinds=('g', 't')):
         yield f'B {kind} {rng.choice(tyv)} {hx(rng.choice(["n", "", "N-_.m", rstr(rng, 0, 4)]))} {",".join(seq)}'
 
 # ------------------------------------------------------------------ G-qops
-QK = ['A_b', 'File_Name', 'file_name', 'A!', 'Key name', 'aB\x00', 'Zé', 'X=y', 'chec\u212asum', 'vc\u017f_url', 'repo\u017fitory_url', 'cla\u00dfifier', 'cla\u017f\u017fifier', 'f\u0131le_name', 'TYPE', 'Checksum', '3rd-party', '7', '0a', '2FA', 'a/b', 'k/', '/', 'k,', 'k:', 'k@', 'k[', 'k^', 'k`', 'k{', 'k', 'key', '\u212a', '\u212aey', 'a', 'A', 'b', 'B', 'a.b', 'a_b', 'ab', '', '!', 'repository_url', 'checksum', 'é', 'K', 'buildtag', 'BuildTag', 'x-y.z_1', 'vcs_url', 'Type', 'download_url', 'file_name', 'platform', 'classifier']
+QK = [' d', 'd ', ' D', 'A_b', 'File_Name', 'file_name', 'A!', 'Key name', 'aB\x00', 'Zé', 'X=y', 'chec\u212asum', 'vc\u017f_url', 'repo\u017fitory_url', 'cla\u00dfifier', 'cla\u017f\u017fifier', 'f\u0131le_name', 'TYPE', 'Checksum', '3rd-party', '7', '0a', '2FA', 'a/b', 'k/', '/', 'k,', 'k:', 'k@', 'k[', 'k^', 'k`', 'k{', 'k', 'key', '\u212a', '\u212aey', 'a', 'A', 'b', 'B', 'a.b', 'a_b', 'ab', '', '!', 'repository_url', 'checksum', 'é', 'K', 'buildtag', 'BuildTag', 'x-y.z_1', 'vcs_url', 'Type', 'download_url', 'file_name', 'platform', 'classifier']
 QV = ['', 'x', 'y']
 def qop_universe():
     ops = ['C', 't', 'l', 'tg', 'tc', 'td', 'tG', f'M:{hx("s")}', f'I:{hx("s")}', f'J:{hx("z")}', f'tr:{hx("u")}', f'tr:-']
@@ -584,7 +606,7 @@ def gen_qops(rng, nrand):
         yield 'F ' + (','.join(ps) or '-')
 
 # ------------------------------------------------------------------ G-cs
-CALGS = ['sha#1', 'my hash&v=2', 'é%+', 'sha3', 'sha3-256', 'sha', 'md5.alt', 'Éℂ', 'Ωϒ', 'Д𝐀', 'ℂ', 'aℂ', 'İ', 'éSHA', 'ésha', 'éA', 'éa', 'SHÄ', 'shä', 'GOST-Ё', 'gost-ё', 'sha1', 'SHA1', 'Sha1', 'md5', 'MD5', 'ǅ', 'ǆ', 'Ǆ', 'a:b', '', 'é', 'É', 'b2', 'K', 'a b', 'ΑΣ', 'ασ', 'ας', 'sha512', 'sha512-256', 'sha512.1', 'urn:sha256']
+CALGS = ['sha-256', 'sha256', 'sha-1', 'sha_1', 'SHA-512', 'md-6', 'sha224', 'sha384', 'md%35', 'MD%35', 'sha#1', 'my hash&v=2', 'é%+', 'sha3', 'sha3-256', 'sha', 'md5.alt', 'Éℂ', 'Ωϒ', 'Д𝐀', 'ℂ', 'aℂ', 'İ', 'éSHA', 'ésha', 'éA', 'éa', 'SHÄ', 'shä', 'GOST-Ё', 'gost-ё', 'sha1', 'SHA1', 'Sha1', 'md5', 'MD5', 'ǅ', 'ǆ', 'Ǆ', 'a:b', '', 'é', 'É', 'b2', 'K', 'a b', 'ΑΣ', 'ασ', 'ας', 'sha512', 'sha512-256', 'sha512.1', 'urn:sha256']
 def gen_cs(rng, n):
     for c in CSOPS: yield f'C {c}'
     for _ in range(n):
@@ -628,6 +650,11 @@ def gen_pt(rng, n, maxlen=3):
             yield 'T ' + hx(name + 'a' * k); yield 'T ' + hx(name + '-' + 'p' * (k - 1)); yield 'T ' + hx(name + ' ' * k)
         for c0 in "#'\x03\r.-+0123456789@[`{":
             yield 'T ' + hx(c0 + name[1:]); yield 'T ' + hx(c0 + name[1:].upper())
+    for name in SEVEN + [x for x in EXTRA['strs'] if x.isalpha()]:
+        for v in ['pkg:' + name, 'pkg:' + name + '/', 'pkg:/' + name, 'pkg://' + name + '//', 'pkg:' + name.upper(), name + '/', '/' + name, name + ':']:
+            yield 'T ' + hx(v)
+        for a, b in (('s', 'ſ'), ('k', '\u212a'), ('ss', 'ß'), ('i', 'ı'), ('S', 'ſ'), ('K', '\u212a')):
+            if a in name: yield 'T ' + hx(name.replace(a, b, 1)); yield 'T ' + hx(name.upper().replace(a.upper(), b, 1))
     for c in ['ｃａｒｇｏ', 'ｎpm', 'pypｉ', 'ţargo', 'nuŧet', 'gｅm', 'ɡem', 'ｍaven', 'сargo', 'nρm']: yield 'T ' + hx(c)
     for name in SEVEN:
         for i in range(len(name) + 1):
@@ -641,6 +668,10 @@ def gen_pt(rng, n, maxlen=3):
     for _ in range(n):
         yield 'T ' + hx(rstr(rng, 0, 8))
 def gen_comb_purl(rng, n):
+    for ty in SEVEN:
+        for q in ['repository_url=https://r.x/v2', 'type=jar', 'vcs_url=git%2Bhttps://e.x']:
+            for nm in ['g/Name', 'Name', '%40Sc/MyLib']:
+                yield f'M {hx("pkg:" + ty + "/" + nm + "@1?" + q)}'
     for s in ['pkg:golang/google.golang.org/genproto#googleapis/api/annotations', 'pkg:golang/a/b@v1?x=y#s/t', 'pkg:npm/%40s/n@1#lib', 'pkg:maven/g.i/a@1?type=pom#x', 'pkg:cargo/n#s', 'pkg:pypi/A_b#s/t', 'pkg:nuget/N@1#x', 'pkg:gem/g?platform=java#lib']:
         yield f'M {hx(s)}'
     for _ in range(n):
@@ -675,6 +706,13 @@ def gen_pair(rng, n, kinds=('g', 't', 's', 'b', 'o')):
                            (f'Q:{hx("a")}:{hx("1")},U:{hx("zzz")}', f'Q:{hx("a")}:{hx("1")},Q:{hx("b")}:{hx("2")},U:{hx("aaa")}'),
                            (f'D:{hx("arch")}:-', '-'), (f'D:{hx("a")}:{hx("1")},D:{hx("b")}:-', f'D:{hx("a")}:{hx("1")}')]:
             yield f'K B {k} {ty} {hx("n")} {ops1} ~ B {k} {ty} {hx("n")} {ops2}'
+    # values that are "the same" under some other notion of equality (numbers, case, white space, separators)
+    for x, y in [('1.01', '1.1'), ('2024.07.04', '2024.7.4'), ('24.04', '24.4'), ('2', '10'), ('10', '1a'), ('1a', '2'), ('+1', '1'), ('1.0', '1.00'), ('1.10.0', '1.9.0'),
+                 ('A', 'a'), ('a ', 'a'), ('a-b', 'a_b'), ('a.b', 'a-b'), ('v1', '1'), ('1.0', '1.0.0'), ('é', 'e\u0301')]:
+        for f in ['V', 'N', 'S', 'U', 'Q']:
+            for k, ty in (('g', hx('t')), ('s', hx('t')), ('o', hx('t')), ('t', '0'), ('t', '6')):
+                mk = lambda v: (f'B {k} {ty} {hx(v)} -' if f == 'N' else f'B {k} {ty} {hx("n")} ' + (f'Q:{hx("k")}:{hx(v)}' if f == 'Q' else f'{f}:{hx(v)}'))
+                yield f'K {mk(x)} ~ {mk(y)}'
     for x, y in [('a\x020b', 'a b'), ('git\x040x', 'git@x'), ('a\tb', 'a%9b'), ('@acme', '%40acme'), ('my org', 'my%20org'), ('a%', 'a%25'), ('a/b', 'a%2Fb'), ('é', '%C3%A9'), ('a b', 'a+b')]:
         for f in ['S', 'N', 'V', 'U', 'Q']:
             for k, ty in (('g', hx('t')), ('s', hx('t')), ('b', hx('t')), ('t', '4')):
@@ -750,7 +788,7 @@ def gen_pair(rng, n, kinds=('g', 't', 's', 'b', 'o')):
 
 # ------------------------------------------------------------------ G-shape
 HOOKS = ['o', 'eo', 'eb', 'be', 'ee', 'ebq', 'S', 'U', 'SU', 'sS', 'fn', 'nf', 'Sn', 'b', 'cb', 'bc', 'mb', 'x', 'qx', 'xq', 'k', 'f', 'n', 's', 'v', 'V', 'u', 'e', 'q', 'm', 'c', 'N', 't', 'nN', 'Nn', 'mc', 'cm', 'se', 'qf', 'fq', 'Vv', 'vV', 'nq', 'eq', 'sVuqc', 'tt', 'ne', 'mn', 'nm']
-FAM_INPUTS = ['pkg:café/n', 'pkg:py٣/n', 'pkg:\u212a8s/n', 'pkg:Custom/n', 'pkg:7custom/n', 'pkg:custom/n?checksum=', 'pkg:custom/n?x=', 'pkg:custom/n?checksum=SHA1:AB', 'pkg:custom/n', 'pkg:CuStOm/N@1?k=v#s', 'pkg:other/a/b/n', 'pkg:custom', 'pkg:cus%74om/n', 'pkg:cu stom/n', 'pkg:/custom/n', 'pkg:custom/',
+FAM_INPUTS = ['PKG:Custom/n', 'Pkg:custom/n@1?k=v#s', 'pkg:custom/n?k=%20', 'pkg:custom/n?checksum=%20', 'pkg:café/n', 'pkg:py٣/n', 'pkg:\u212a8s/n', 'pkg:Custom/n', 'pkg:7custom/n', 'pkg:custom/n?checksum=', 'pkg:custom/n?x=', 'pkg:custom/n?checksum=SHA1:AB', 'pkg:custom/n', 'pkg:CuStOm/N@1?k=v#s', 'pkg:other/a/b/n', 'pkg:custom', 'pkg:cus%74om/n', 'pkg:cu stom/n', 'pkg:/custom/n', 'pkg:custom/',
               'pkg:custom/n?zz=&checksum=A:00', 'pkg:custom/n?checksum=bad', 'pkg:custom/n?=x', 'pkg:custom/%80', 'pkg:custom/n#%2e', 'x:custom/n', 'pkg:',
               'pkg:custom/n@%FF', 'pkg:custom/a%2Fb/n', 'pkg:Custom2/n', 'pkg:custom/n?Hk=old&ZZ=1']
 def gen_shape(rng, n):
